@@ -77,6 +77,7 @@ type Result struct {
 	MemoEntries  int      `json:"memo,omitempty"`
 	GLog         string   `json:"glog,omitempty"`
 	FinalState   string   `json:"fstate,omitempty"`
+	StateIDs     []uintptr `json:"-"`
 	Dbg          *DbgAgg  `json:"dbg,omitempty"`
 	Died         string   `json:"died,omitempty"`
 	Timeout      bool     `json:"timeout,omitempty"`
@@ -269,6 +270,12 @@ func DigestDebug(path string, in []byte) *DbgAgg {
 
 // Main is the child's main loop: cases in, results out, pre-log before each case.
 func Main() {
+	if len(os.Args) >= 7 && os.Args[1] == "-conc" {
+		g, _ := strconv.Atoi(os.Args[4])
+		it, _ := strconv.Atoi(os.Args[5])
+		MainConcurrent(os.Args[2], os.Args[3], g, it, os.Args[6] == "canary")
+		return
+	}
 	if len(os.Args) < 4 {
 		fmt.Fprintln(os.Stderr, "usage: child cases.jsonl results.jsonl prelog [caseTimeoutSec]")
 		os.Exit(2)
